@@ -1,6 +1,7 @@
 package main
 
 import (
+	"os"
 	"fmt"
 	"math/rand"
 	"sort"
@@ -170,7 +171,30 @@ func (g *gQueueMap) Remove(c string) {
 	g.mu.Lock()
 	delete(g.m, c)
 	g.mu.Unlock()
+	// the true end of the client's session at the ocppj layer: a request pushed (by a sender that had fetched the queue)
+	// between the harness's `disconnect` line and this point belongs to the session that ends here
+	g.l.add("removed", c, "")
 }
+// allEmpty: every registered queue is empty (the queues of removed clients do not count)
+func (g *gQueueMap) allEmpty() bool {
+	g.mu.Lock()
+	qs := make([]ocppj.RequestQueue, 0, len(g.m))
+	for _, q := range g.m {
+		qs = append(qs, q)
+	}
+	g.mu.Unlock()
+	for _, q := range qs {
+		if gq, ok := q.(*gQueue); ok {
+			if !gq.q.IsEmpty() {
+				return false
+			}
+		} else if !q.IsEmpty() {
+			return false
+		}
+	}
+	return true
+}
+
 func (g *gQueueMap) Add(c string, q ocppj.RequestQueue) {
 	g.mu.Lock()
 	g.m[c] = q
@@ -296,7 +320,7 @@ func checkLog(prop string, evs []sev, T time.Duration, finalDrain bool, viol fun
 			linkDown[e.client] = true
 		case "connect":
 			linkDown[e.client] = false
-		case "disconnect", "stop":
+		case "disconnect", "stop", "removed":
 			for kk := range accepted {
 				if (kk.c == e.client || e.kind == "stop") && len(concl[kk]) == 0 {
 					dropped[kk] = true
@@ -492,11 +516,25 @@ func stressServerRound(seed int64, cfg stressCfg, viol func(prop, sig, what stri
 		}
 		for time.Now().Before(deadline) {
 			time.Sleep(step)
-			if d.IsRunning() && !srv.RequestState.HasPendingRequests() && len(pendingReplies) == 0 {
+			// (drained = nothing pending AND nothing queued: between two requests nothing is pending for a moment)
+			if d.IsRunning() && !srv.RequestState.HasPendingRequests() && qm.allEmpty() && len(pendingReplies) == 0 {
 				time.Sleep(step)
-				if !srv.RequestState.HasPendingRequests() {
+				if !srv.RequestState.HasPendingRequests() && qm.allEmpty() {
 					break
 				}
+			}
+		}
+		// the deadline is an estimate: as long as the endpoint still makes progress (the log grows) it is draining, not
+		// stuck. Only an endpoint with something pending that logs nothing for 6 steps has stopped (hard cap 8 s).
+		hard := time.Now().Add(8 * time.Second)
+		size := func() int { l.mu.Lock(); defer l.mu.Unlock(); return len(l.evs) }
+		last, since := size(), time.Now()
+		for !cfg.calm && (srv.RequestState.HasPendingRequests() || !qm.allEmpty()) && time.Now().Before(hard) {
+			time.Sleep(step)
+			if n := size(); n != last {
+				last, since = n, time.Now()
+			} else if time.Since(since) > 6*step {
+				break
 			}
 		}
 	}
@@ -515,6 +553,12 @@ func stressServerRound(seed int64, cfg stressCfg, viol func(prop, sig, what stri
 		viol("C07", sg, fmt.Sprintf("%s: the endpoint did not go idle: API callers wedged=%v, goroutines blocked for ever: %v", cfg.name, wedged, where), map[string]interface{}{"seed": seed, "goroutines": where})
 	} else {
 		checkLog(cfg.name, evs, cfg.timeout, true, viol)
+		if os.Getenv("STRESS_DEBUG") != "" {
+			fmt.Fprintf(os.Stderr, "DEBUG pending=%v now=%s\n", srv.RequestState.HasPendingRequests(), time.Now().Format("05.000000"))
+			for _, g := range libGoroutines() {
+				fmt.Fprintf(os.Stderr, "DEBUG %s @ %s %s\n", g.state, g.top, g.where)
+			}
+		}
 	}
 	if wedged || len(stuck) > 0 {
 		return len(evs) // cannot stop a wedged endpoint safely
@@ -653,6 +697,18 @@ func stressClientRound(seed int64, cfg stressCfg, viol func(prop, sig, what stri
 		for time.Now().Before(deadline) {
 			time.Sleep(step)
 			if !st.s.HasPendingRequest() && q.q.IsEmpty() && len(pendingReplies) == 0 {
+				break
+			}
+		}
+		// (as on the server: keep waiting while the endpoint still makes progress)
+		hard := time.Now().Add(8 * time.Second)
+		size := func() int { l.mu.Lock(); defer l.mu.Unlock(); return len(l.evs) }
+		last, since := size(), time.Now()
+		for !cfg.calm && fc.IsConnected() && (st.s.HasPendingRequest() || !q.q.IsEmpty()) && time.Now().Before(hard) {
+			time.Sleep(step)
+			if n := size(); n != last {
+				last, since = n, time.Now()
+			} else if time.Since(since) > 6*step {
 				break
 			}
 		}
